@@ -80,6 +80,8 @@ func (cx *Ctx) endpointTable(fn *ssa.Function) (map[string]map[string]bool, []st
 
 func checkC11(cx *Ctx, r *Report) {
 	w, fx := cx.W, cx.Fx
+	// storage is asked with the request's context (which carries the issuer in effect)
+	cx.checkStorageContext(r)
 	r.Clauses = []string{
 		"Issuer = entityID: every Issuer of a protocol reply (login, SSO error, logout, attribute query) and the entityID of the metadata document have the single source IdentityProvider.GetEntityID(<the request's context>) = metadataEndpoint.Absolute(IssuerFromContext(ctx))",
 		"routes vs advertised locations: the composed table service -> endpoint -> handler extracted from getMetadata and GetRoutes equals {SingleSignOnService -> ssoHandleFunc, SingleLogoutService -> logoutHandleFunc, AttributeService -> attributeQueryHandleFunc}; advertised and routed endpoints are built by endpointConfigToEndpoints from the same configuration; Absolute (without URL override) and Relative both end in relativeEndpoint(path); routes carry no method/host matcher; the metadata route is metadataEndpoint.Relative()",
@@ -124,28 +126,9 @@ func checkC11(cx *Ctx, r *Report) {
 			}
 		}
 	}
+	cx.checkMetadataOfThisRequest(r)
+	cx.checkKeyPairChecked(r)
 	vm := cx.vflow(kMeta)
-	if vm != nil {
-		ls, sites := vm.FieldStoreSources("md.EntityDescriptorType", "EntityID")
-		if len(sites) == 0 {
-			r.Fail("R-VFG", "metadata:entityID", "", "the metadata document gets no entityID")
-		} else {
-			r.checkSources("R-VFG", "metadata:entityID", w.InstrPos(sites[0]), vm.Deep(ls), entityIDSources, []string{"ext:iface:context.Context.Value#0"}, false)
-		}
-		lc, cs := vm.CallArgSources(matchFnKey(w, "provider.(*Provider).GetMetadata"), 1)
-		if len(cs) > 0 {
-			r.checkSources("R-VFG", "metadata:context", w.InstrPos(cs[0]), lc, []string{"ext:(*http.Request).Context#0"}, []string{"ext:(*http.Request).Context#0"}, true)
-		}
-		// what is served is the document just built for this request
-		lw, ws := vm.CallArgSources(matchFnKey(w, "xml.WriteXMLMarshalled"), 1)
-		if len(ws) > 0 {
-			r.checkSources("R-VFG", "metadata:served-document", w.InstrPos(ws[0]), lw, []string{"alloc:{md.EntityDescriptorType}*"}, []string{"alloc:{md.EntityDescriptorType}*"}, false)
-		} else {
-			r.Fail("R-VFG", "metadata:served-document", "", "the metadata handler does not write a document")
-		}
-	} else {
-		r.Fail("R-VFG", "metadata", "", "metadata handler not found")
-	}
 	cx.checkIssuerSchemeFlag(r)
 	// GetEntityID = metadataEndpoint.Absolute(IssuerFromContext(ctx))
 	if ge := w.Func("provider.(*IdentityProvider).GetEntityID"); ge != nil {
@@ -499,4 +482,33 @@ func constStringSlice(v ssa.Value) (map[string]bool, bool) {
 		}
 	}
 	return out, len(out) > 0
+}
+
+// checkMetadataOfThisRequest: the metadata document served is the one built for this request - its entityID derives
+// from the issuer in this request's context, the context handed to GetMetadata is the request's, and what is written
+// is the freshly built document (not one kept from another request, whose issuer may differ).
+func (cx *Ctx) checkMetadataOfThisRequest(r *Report) {
+	w := cx.W
+	vm := cx.vflow(kMeta)
+	if vm != nil {
+		ls, sites := vm.FieldStoreSources("md.EntityDescriptorType", "EntityID")
+		if len(sites) == 0 {
+			r.Fail("R-VFG", "metadata:entityID", "", "the metadata document gets no entityID")
+		} else {
+			r.checkSources("R-VFG", "metadata:entityID", w.InstrPos(sites[0]), vm.Deep(ls), entityIDSources, []string{"ext:iface:context.Context.Value#0"}, false)
+		}
+		lc, cs := vm.CallArgSources(matchFnKey(w, "provider.(*Provider).GetMetadata"), 1)
+		if len(cs) > 0 {
+			r.checkSources("R-VFG", "metadata:context", w.InstrPos(cs[0]), lc, []string{"ext:(*http.Request).Context#0"}, []string{"ext:(*http.Request).Context#0"}, true)
+		}
+		// what is served is the document just built for this request
+		lw, ws := vm.CallArgSources(matchFnKey(w, "xml.WriteXMLMarshalled"), 1)
+		if len(ws) > 0 {
+			r.checkSources("R-VFG", "metadata:served-document", w.InstrPos(ws[0]), lw, []string{"alloc:{md.EntityDescriptorType}*"}, []string{"alloc:{md.EntityDescriptorType}*"}, false)
+		} else {
+			r.Fail("R-VFG", "metadata:served-document", "", "the metadata handler does not write a document")
+		}
+	} else {
+		r.Fail("R-VFG", "metadata", "", "metadata handler not found")
+	}
 }
